@@ -285,6 +285,12 @@ func (x *Exec) callByContract(fr *Frame, st *State, callee *ssa.Function, c *Con
 	for _, r := range x.evalClauses(nf, st, c.clauses("ensures", 0), nil, "ensures") {
 		x.assumeFact(st, r.t)
 	}
+	// `defines`: the clause gives an uninterpreted spec symbol its meaning ("blank(l) is what IsBlank returns");
+	// it is assumed at call sites and not an obligation of the body (listed among the assumptions)
+	for _, r := range x.evalClauses(nf, st, c.clauses("defines", 0), nil, "defines") {
+		x.trusted["DEFINITION by "+jobName(callee)+": "+r.cl.Src] = true
+		x.assumeFact(st, r.t)
+	}
 	return res
 }
 
